@@ -103,8 +103,25 @@ class Gen(object):
     def missing_p(self, m):
         return [u for u in self.P if u not in m.providers]
 
+    roomy = False   # candidate profiles: inventories that usually have room
+
     def gen_inventory(self, tight=True):
         total = self.rng.randint(1, self.max_total)
+        if self.roomy:
+            total = self.rng.randint(4, max(8, self.max_total * 2))
+            inv = {'total': total}
+            if self.chance(0.3):
+                inv['reserved'] = self.rng.randint(0, total // 3)
+            if self.chance(0.25):
+                inv['max_unit'] = self.rng.randint(2, total)
+            if self.chance(0.15):
+                inv['step_size'] = 2
+            if self.chance(0.1):
+                inv['min_unit'] = 2
+            if self.chance(0.4):
+                inv['allocation_ratio'] = self.pick([0.5, 1.0, 1.5, 2.0,
+                                                     16.0])
+            return inv
         inv = {'total': total}
         if self.chance(0.5):
             inv['reserved'] = self.rng.randint(0, max(0, total - 1))
